@@ -12,7 +12,7 @@ import z3
 
 from symx.core import explore
 from symx.report import Cex
-from . import gitprops, common
+from . import gitprops, common, histcheck
 
 
 def delete_part(rep):
@@ -78,9 +78,12 @@ def check(rep):
     gitprops.run(rep, 'C08')
     delete_part(rep)
     remove_guard(rep)
+    histcheck.check(rep, 'C08')
 
 
 def replay(data):
+    if 'history' in data:
+        return histcheck.replay('C08', data)
     if data.get('part') == 'delete':
         from . import c20
         return c20.replay(data)
